@@ -370,7 +370,14 @@ def rule_guid_ctor(ctx, f):
 def rule_fd_secondary(ctx, f, roots):
     sites = 0
     for name, reader in (("receive_secondary_responses", "read_commands"), ("send_secondary_commands", "read_command")):
-        body = code(ctx, f, roots[name], hs.has_call(reader), "calls " + reader)
+        cands = hs.code_bodies(f, roots[name].id, hs.has_call(reader))
+        if not cands and name == "send_secondary_commands":
+            # the xdg-dbus-proxy special case may legitimately disappear; then nothing may enable fd passing here
+            stray = [c for b in hs.family(f, roots[name].id) for c in mir.calls(b) if c.callee == COMMON + "::set_cap_unix_fd"]
+            ctx.ob("FD-CAP", name + ":no-set_cap_unix_fd-without-a-server-reply", not stray,
+                   "send_secondary_commands reads no reply and does not touch the fd capability", roots[name].where)
+            continue
+        body = ctx.one(cands, "code body of %s (calls %s)" % (short(roots[name].id), reader))
         vf = hs.VarFacts(f, body)
         key, rc, br = read_key(ctx, "SECONDARY", name, body, vf, reader)
         if key is None:
@@ -414,7 +421,7 @@ def rule_fd_secondary(ctx, f, roots):
             bad = (seen - set(heads)) & forbidden
             ctx.ob("SECONDARY", "%s:Ok-ends-the-handshake" % name, not bad,
                    "a second OK in answer to NEGOTIATE_UNIX_FD is an error", rc.where)
-    ctx.floor("FD-CAP", "client call sites of set_cap_unix_fd", sites, 2)
+    ctx.floor("FD-CAP", "client call sites of set_cap_unix_fd", sites, 1)
     # setter and field writers
     setter = ctx.one(f.find(name="set_cap_unix_fd", adt=COMMON, trait=""), "Common::set_cap_unix_fd")
     ws = hs.writes_of_field(f, COMMON, "cap_unix_fd")
@@ -591,7 +598,12 @@ def run(ctx):
         "the client handshake modules.")
     ctx.not_decided = ("transport behaviour, hex/uuid crates; the Hello exchange itself (receive_message belongs to C14); "
                        "that the bus-hello path passes a fresh empty fd list is noted in DESIGN §5.C17, not a rule.")
-    f = ctx.facts("K1")
+    check_config(ctx, ctx.facts("K1"))
+    if ctx.tier == "thorough":
+        check_config(hs.Tagged(ctx, "K3:"), ctx.facts("K3"))
+
+
+def check_config(ctx, f):
     roots = {}
     for n in ("new", "set_guid", "authenticate", "send_secondary_commands", "receive_secondary_responses"):
         roots[n] = ctx.one(f.find(name=n, adt=CLIENT, trait=""), "Client::" + n)
